@@ -1,11 +1,146 @@
-(* C05 — CSRs, CRLs and revocation lists round-trip and self-verify.  Property theorems only. *)
-From Coq Require Import List NArith ZArith Bool Arith.
+(* C05 — CSRs, CRLs and revocation lists round-trip and self-verify.
+   Property theorems only; each is closed by [exact] of a lemma from
+   proof/C05Proofs.v.
+
+   Model: model/C05.v — build_csr_tbs / parse_csr mirror CreateCertificateRequest
+   / ParseCertificateRequest, build_crl_tbs / parse_crl mirror
+   Certificate.CreateCRL / ParseCRL, build_rl_tbs / parse_rl mirror
+   CreateRevocationList / ParseRevocationList (crl_parser.go). *)
+From Coq Require Import List NArith ZArith Bool Arith Permutation.
 From Verif Require Import Harness DerTree DerPrim.
+From VerifGen Require Import C04_gen.
 From VerifModel Require Import C04 C05.
-From VerifProof Require Import C05Proofs.
+From VerifProof Require Import C04Proofs C04Top C05Proofs.
 Import ListNotations.
 Local Open Scope N_scope.
 
-Theorem C05_placeholder : oid_reason = [2; 5; 29; 21].
-Proof. exact placeholder. Qed.
-Print Assumptions C05_placeholder.
+(* ---- certificate requests ---- *)
+Theorem C05_csr_roundtrip : forall i tbs a sig,
+  wf_csr i -> build_csr_tbs i = Some (tbs, a) ->
+  let t := ci_t i in
+  exists f,
+    parse_csr (emit (seq [tbs; a; Prim 0 3 (0 :: sig)])) = Some f /\
+    cf_version f = 0%Z /\
+    cf_sigalg f = expected_sigalg (ci_key i) (c_sigalg t) /\
+    name_rel (c_subject t) (cf_subject f) /\
+    cf_exts f = csr_extensions t /\
+    cf_dns f = c_dns t /\ cf_emails f = c_emails t /\ cf_ips f = map san_ip (c_ips t).
+Proof. exact csr_roundtrip. Qed.
+Print Assumptions C05_csr_roundtrip.
+
+(* ---- legacy CRLs ---- *)
+Theorem C05_crl_roundtrip : forall i tbs a sig,
+  wf_crl i -> build_crl_tbs i = Some (tbs, a) ->
+  exists f,
+    parse_crl (emit (seq [tbs; a; Prim 0 3 (0 :: sig)])) = Some f /\
+    lf_version f = 1%Z /\
+    lf_sigalg f = default_sigalg (l_key i) /\
+    name_rel (l_issuer i) (lf_issuer f) /\
+    lf_this f = l_now i /\ lf_next f = Some (l_expiry i) /\
+    lf_revoked f = l_revoked i /\
+    lf_exts f = crl_exts i.
+Proof. exact crl_roundtrip. Qed.
+Print Assumptions C05_crl_roundtrip.
+
+(* ---- v2 revocation lists ---- *)
+Theorem C05_rl_roundtrip : forall i tbs a sig rest,
+  wf_rl i -> build_rl_tbs i = Some (tbs, a) ->
+  exists f,
+    parse_rl (emit (seq [tbs; a; Prim 0 3 (0 :: sig)]) ++ rest) = Some f /\
+    rf_sigalg f = expected_sigalg (r_key i) (r_sigalg i) /\
+    name_rel (r_issuer i) (rf_issuer f) /\
+    rf_this f = r_this i /\ rf_next f = Some (r_next i) /\
+    rf_revoked f = map expected_pentry (r_revoked i) /\
+    rf_number f = Some (r_number i) /\
+    rf_aki f = r_issuer_ski i /\
+    rf_exts f = rl_exts i.
+Proof. exact rl_roundtrip. Qed.
+Print Assumptions C05_rl_roundtrip.
+
+(* reason code: nil or zero -> no extension and nil when parsed; otherwise the code *)
+Theorem C05_reason_code_rule : forall e : rl_entry, let '(_, _, reason, _) := e in
+  (-2 ^ 55 < match reason with Some z => z | None => 0 end < 2 ^ 55)%Z ->
+  entry_reason (rl_entry_exts e) None = Some (reason_out reason).
+Proof. exact reason_code_rule. Qed.
+Print Assumptions C05_reason_code_rule.
+
+(* whatever reasonCode extensions the caller put into ExtraExtensions, the entry
+   carries exactly the synthesised one (or none) *)
+Theorem C05_user_reason_ext_replaced : forall e : rl_entry,
+  let '(_, _, reason, extra) := e in
+  filter (fun x => oid_eqb (ext_id x) oid_reason) (rl_entry_exts e) =
+  match reason_out reason with
+  | Some z => [(oid_reason, false, emit (d_enum z))]
+  | None => []
+  end.
+Proof. exact user_reason_ext_replaced. Qed.
+Print Assumptions C05_user_reason_ext_replaced.
+
+(* on what the writers produce the cryptobyte-based name reader agrees with the asn1-based one *)
+Theorem C05_name_readers_agree : forall n d,
+  wf_name_cb n = true -> build_name n = Some d -> read_name_cb d = read_name d.
+Proof. exact read_name_cb_build. Qed.
+Print Assumptions C05_name_readers_agree.
+
+(* the v2 reader's OID decoder (four octets per value) *)
+Theorem C05_oid_roundtrip_cryptobyte : forall o bs,
+  wf_oid_cb o = true -> enc_oid o = Some bs -> dec_oid_cb bs = Some o.
+Proof. exact dec_enc_oid_cb. Qed.
+Print Assumptions C05_oid_roundtrip_cryptobyte.
+
+(* ---- self-verification; premise: the signature scheme verifies what it signs ---- *)
+Theorem C05_csr_self_verifies :
+  forall (sign : keykind -> N -> bytes -> bytes) (verify : keykind -> N -> bytes -> bytes -> bool),
+  (forall k alg msg, verify k alg msg (sign k alg msg) = true) ->
+  forall i tbs a sig f,
+    wf_csr i -> build_csr_tbs i = Some (tbs, a) ->
+    parse_csr (emit (seq [tbs; a; Prim 0 3 (0 :: sig)])) = Some f ->
+    verify (ci_key i) (cf_sigalg f) (emit tbs)
+           (sign (ci_key i) (expected_sigalg (ci_key i) (c_sigalg (ci_t i))) (emit tbs)) = true.
+Proof. exact csr_self_verifies. Qed.
+Print Assumptions C05_csr_self_verifies.
+
+Theorem C05_crl_verifies :
+  forall (sign : keykind -> N -> bytes -> bytes) (verify : keykind -> N -> bytes -> bytes -> bool),
+  (forall k alg msg, verify k alg msg (sign k alg msg) = true) ->
+  forall i tbs a sig f,
+    wf_crl i -> build_crl_tbs i = Some (tbs, a) ->
+    parse_crl (emit (seq [tbs; a; Prim 0 3 (0 :: sig)])) = Some f ->
+    verify (l_key i) (lf_sigalg f) (emit tbs) (sign (l_key i) (default_sigalg (l_key i)) (emit tbs)) = true.
+Proof. exact crl_verifies. Qed.
+Print Assumptions C05_crl_verifies.
+
+Theorem C05_rl_verifies :
+  forall (sign : keykind -> N -> bytes -> bytes) (verify : keykind -> N -> bytes -> bytes -> bool),
+  (forall k alg msg, verify k alg msg (sign k alg msg) = true) ->
+  forall i tbs a sig f,
+    wf_rl i -> build_rl_tbs i = Some (tbs, a) ->
+    parse_rl (emit (seq [tbs; a; Prim 0 3 (0 :: sig)])) = Some f ->
+    verify (r_key i) (rf_sigalg f) (emit tbs)
+           (sign (r_key i) (expected_sigalg (r_key i) (r_sigalg i)) (emit tbs)) = true.
+Proof. exact rl_verifies. Qed.
+Print Assumptions C05_rl_verifies.
+
+(* ---- non-vacuity ---- *)
+Theorem C05_nonvacuous_csr : wf_csr ex_csr /\
+  exists tbs a f, build_csr_tbs ex_csr = Some (tbs, a) /\
+  parse_csr (emit (seq [tbs; a; Prim 0 3 [0; 1; 2]])) = Some f /\
+  cf_ips f = [[10; 1; 2; 3]] /\ length (cf_exts f) = 2%nat /\
+  existsb ext_crit (cf_exts f) = true.
+Proof. exact (conj ex_csr_wf ex_csr_builds). Qed.
+Print Assumptions C05_nonvacuous_csr.
+
+Theorem C05_nonvacuous_crl : wf_crl ex_crl /\
+  exists tbs a f, build_crl_tbs ex_crl = Some (tbs, a) /\
+  parse_crl (emit (seq [tbs; a; Prim 0 3 [0; 1; 2]])) = Some f /\
+  length (lf_revoked f) = 2%nat /\ lf_sigalg f = 11 /\ length (lf_exts f) = 1%nat.
+Proof. exact (conj ex_crl_wf ex_crl_builds). Qed.
+Print Assumptions C05_nonvacuous_crl.
+
+Theorem C05_nonvacuous_rl : wf_rl ex_rl /\
+  exists tbs a f, build_rl_tbs ex_rl = Some (tbs, a) /\
+  parse_rl (emit (seq [tbs; a; Prim 0 3 [0; 1; 2]])) = Some f /\
+  map (fun e : rl_pentry => snd (fst e)) (rf_revoked f) = [Some 1%Z; None; None] /\
+  rf_aki f = [1; 2; 3; 4] /\ rf_number f = Some 5%Z.
+Proof. exact (conj ex_rl_wf ex_rl_builds). Qed.
+Print Assumptions C05_nonvacuous_rl.
